@@ -200,8 +200,42 @@ class Classifier(object):
         self.general.append((s, n))
         return mk("foldgen", self.uid, len(self.general) - 1)
 
+    def by_fields(self, leaf, n):
+        """An opaque record updated field-wise (upd chains): classify each updated field."""
+        s = leaf.sym
+        fields = {}
+        for t in tm.subterms(n):
+            if t.op == "upd" and (t.a[0] is s or t.a[0].op in ("upd", "ite")):
+                fields[(t.a[1], t.a[2], t.a[3])] = True
+        if not fields:
+            return None
+        out = leaf.init
+        subs = {}
+        fleaves = {}
+        for (vidx, i, name) in fields:
+            fs = tm.fresh("sf")
+            fl = Leaf(fs, tm.proj(leaf.init, vidx, i, name), "val")
+            self.leaves.append(fl)
+            self.by_sym[fs] = fl
+            fleaves[(vidx, i, name)] = fl
+            subs[tm.proj(s, vidx, i, name)] = fs
+        self.state_syms = frozenset(l.sym for l in self.leaves)
+        for (vidx, i, name), fl in fleaves.items():
+            nf = tm.subst(tm.proj(n, vidx, i, name), subs)
+            if s in tm.free_syms(nf):
+                return None          # the new field value reads other parts of the record
+            out = tm.upd(out, vidx, i, name, self.leaf(fl, nf))
+        # fields that are not updated must stay: n projected on any other field is s's field
+        return out
+
     def plain(self, leaf, n):
         s = leaf.sym
+        if leaf.init.op not in ("adt", "emap", "eset", "tuple") and any(
+                t.op == "upd" for t in tm.subterms(n)) and leaf.kind == "val":
+            r = self.by_fields(leaf, n)
+            if r is not None:
+                self.kinds.append(("record-fields", None))
+                return r
         emp = mk("is_empty", s)
         if leaf.init.op == "seq" and len(leaf.init.a) == 0 and any(t is emp for t in tm.subterms(n)):
             r = self.accumulate(leaf, tm.subst(n, {emp: tm.FALSE}), tm.subst(n, {emp: tm.TRUE}))
@@ -234,11 +268,13 @@ class Classifier(object):
         if cases and all(self.free_of_state(g) and u.op == "push" and u.a[0] is s
                          and self.free_of_state(u.a[1]) for g, u in cases):
             self.kinds.append(("append", cases))
-            out = leaf.init
-            for g, u in cases:
-                it = mk("map", filtered(self.src, self.elem, g), tm.lam([self.elem], u.a[1]))
-                out = mk("extend", out, it)
-            return out
+            # one extend in iteration order: the element pushed is chosen by the case gates
+            allg = tm.or_(*[g for g, _u in cases])
+            el = tm.GARBAGE
+            for g, u in reversed(cases):
+                el = tm.ite(g, u.a[1], el)
+            it = mk("map", filtered(self.src, self.elem, allg), tm.lam([self.elem], el))
+            return mk("extend", leaf.init, it)
         # overwrite by a state-free value: last writer wins
         if cases and all(self.free_of_state(g) and self.free_of_state(u) for g, u in cases):
             self.kinds.append(("overwrite", cases))
